@@ -506,7 +506,8 @@ def run_fit(item, only=None):
 
     pmax = 32 * V / 1000.0
     for stay in item["stays"]:
-        for en in b["fit_energies"]:
+        # every request is followed by one 0.4 Wh larger (two requests that close are still two requests)
+        for en in [x for e0 in b["fit_energies"] for x in (e0, round(e0 + 0.0004, 7))]:
             ctx = {"V": V, "period": period, "stay": stay, "e": en}
             if only is not None and only != ctx:
                 continue
